@@ -162,6 +162,9 @@ AddE(i) ==
   /\ tdSt[i] = "adding"
   \* C03: a teardown added after disposal runs immediately
   /\ On("C03") => (tdLate[i] => tdRan[i] = 1)
+  \* C14: the teardown IS the cancellation of whatever was registered (an upstream subscription): registered on a subscription that is
+  \* already closed, it has run when Add returns - nothing stays subscribed behind a closed subscription
+  /\ On("C14") => (tdLate[i] => tdRan[i] >= 1)
   /\ tdSt' = [tdSt EXCEPT ![i] = "added"]
   /\ UNCHANGED <<kind, safe, call, inside, termB, termE, unsB, unsE, tdRan, tdOf, tdLate, unsAct, disposed, objTerm, waiting, quiet, gsnap>>
 
@@ -219,6 +222,9 @@ Quiesce ==
   \* C03: an open subscription has run none of its teardowns, a closed one all of them, once
   /\ On("C03") => \A i \in TD : tdSt[i] = "added" =>
         IF Closing(tdOf[i]) THEN tdRan[i] = 1 ELSE tdRan[i] = 0
+  \* C14: once every thread has been joined, a subscription that terminated or was unsubscribed has cancelled everything registered on it,
+  \* also what was being registered while it closed
+  /\ On("C14") => \A i \in TD : (tdSt[i] = "added" /\ Closing(tdOf[i])) => tdRan[i] >= 1
   /\ quiet' = TRUE
   /\ UNCHANGED <<kind, safe, call, inside, termB, termE, unsB, unsE, tdRan, tdOf, tdSt, tdLate, unsAct, disposed, objTerm, waiting, gsnap>>
 
